@@ -541,7 +541,9 @@ static bool mi_segment_purge(mi_segment_t* segment, uint8_t* p, size_t size) {
     // purging
     mi_assert_internal((void*)start != (void*)segment);
     mi_assert_internal(segment->allow_decommit);
-    const bool decommitted = _mi_os_purge(start, full_size);  // reset or decommit
+    // only allow a reset if the full range is committed (as with arena purges)
+    const bool all_committed = mi_commit_mask_all_set(&segment->commit_mask, &mask);
+    const bool decommitted = _mi_os_purge_ex(start, full_size, all_committed /* allow reset? */, full_size);  // reset or decommit
     if (decommitted) {
       mi_commit_mask_t cmask;
       mi_commit_mask_create_intersect(&segment->commit_mask, &mask, &cmask);
